@@ -1,5 +1,8 @@
 import PikaVerif.Lemmas.AffBalanced
 import PikaVerif.Lemmas.AffPool
+import PikaVerif.Lemmas.AffTerm
+import PikaVerif.Lemmas.AffNuma
+import PikaVerif.Lemmas.AffCmd
 /-!
 # C15 — workers are pinned to distinct PUs inside the process mask
 
@@ -295,5 +298,437 @@ example : ∃ s, runLog Pool.step (Pool.init [0, 1, 2, 3] 4) [.create, .add 2 1,
     s.configured = true ∧ s.pool 0 = [0, 1, 3] ∧ s.pool 1 = [2] := ⟨_, rfl, rfl, rfl, rfl⟩
 /-- handing the same PU out twice is refused -/
 example : runLog Pool.step (Pool.init [0, 1] 2) [.create, .add 1 1, .add 1 0] = none := by decide
+
+/-! ## Follow-up C15t (1): termination of scatter and balanced
+
+`usable cfg` (`Lemmas/AffTerm.lean`) = number of PUs the `next_pu_index` loops of scatter and
+balanced can ever reach: PUs inside the effective mask on the first `min(max_cores, #cores)`
+cores (`usable_mask`: the whole mask count when the process mask is used; `usable_nomask`: all
+PUs of those cores when it is ignored).  The model's outer loops carry a fuel argument
+(`cfg.n + 1` passes) and report `diverge` when the fuel runs out **or** when a pass places no
+thread (after which every further pass of the real loop is identical).  The theorems below show
+that the fuel never runs out and that the second case happens exactly when `usable cfg < cfg.n`:
+the real loop nests return for every other input. -/
+
+/-- **scatter does not return exactly when the request passes `check_num_threads` but the cores
+    the decoder looks at hold fewer usable PUs than threads** (both directions). -/
+theorem C15_scatter_diverges_iff (cfg : Cfg) :
+    isDiverge (decode .scatter cfg) = (!tooMany cfg && decide (usable cfg < cfg.n)) := by
+  simp only [decode, decodeScatter]
+  cases ht : tooMany cfg with
+  | true => simp [isDiverge]
+  | false =>
+    simp only [Bool.false_eq_true, ↓reduceIte, Bool.not_false, Bool.true_and]
+    by_cases h0 : cfg.n = 0
+    · simp [h0, isDiverge]
+    · simp only [h0, ↓reduceIte]
+      by_cases hg : usable cfg < cfg.n
+      · rw [scatterLoop_diverges cfg hg (cfg.n + 1) ⟨ASt.init, fun _ => 0⟩ (scatter_init_TBase cfg)
+          (by simp [ASt.init]; omega) (fun _ _ => rfl)]
+        simp [isDiverge, hg]
+      · obtain ⟨aff, pn, h⟩ := scatterLoop_terminates cfg (by omega) (cfg.n + 1)
+          ⟨ASt.init, fun _ => 0⟩ (scatter_init_TBase cfg) (by simp [ASt.init]; omega)
+          (fun _ _ => rfl) (by simp [ASt.init])
+        rw [h]; simp [isDiverge, hg]
+
+/-- **balanced does not return exactly on the same inputs** (both directions). -/
+theorem C15_balanced_diverges_iff (cfg : Cfg) :
+    isDiverge (decode .balanced cfg) = (!tooMany cfg && decide (usable cfg < cfg.n)) := by
+  simp only [decode, decodeBalanced]
+  cases ht : tooMany cfg with
+  | true => simp [isDiverge]
+  | false =>
+    simp only [Bool.false_eq_true, ↓reduceIte, Bool.not_false, Bool.true_and]
+    have hs := balPhase1_isSome cfg 0 cfg.n (effCores cfg)
+    rw [← usable_eq_balTotal] at hs
+    cases hb : balPhase1 cfg 0 cfg.n (effCores cfg) with
+    | none =>
+      rw [hb] at hs
+      have : usable cfg < cfg.n := by
+        have : ¬ cfg.n ≤ usable cfg := by simpa using hs.symm
+        omega
+      simp [isDiverge, this]
+    | some b =>
+      rw [hb] at hs
+      have hle : cfg.n ≤ usable cfg := by simpa using hs.symm
+      have : ¬ usable cfg < cfg.n := by omega
+      simp only [this, decide_false]
+      cases balPhase2 cfg b (effUsed cfg) (effUsed cfg) (effCores cfg) ASt.init <;> rfl
+
+/-- **A satisfiable scatter request is accepted**: with `--pika:cores` not below the thread
+    count (or the process mask in use) every thread count that fits returns masks — which then
+    satisfy all clauses (`C15_singleton_in_mask`, `C15_distinct`, `C15_reported_pu_is_bound`). -/
+theorem C15_scatter_accepts_satisfiable (cfg : Cfg) (hwf : WF cfg.t) (hc : CoresOK cfg)
+    (hn : cfg.n ≤ avail cfg) : ∃ aff pn, decode .scatter cfg = .ok aff pn := by
+  have hu := usable_enough cfg hwf hc hn
+  simp only [decode, decodeScatter, tooMany_false cfg hn, Bool.false_eq_true, ↓reduceIte]
+  by_cases h0 : cfg.n = 0
+  · simp only [h0, ↓reduceIte]; exact ⟨_, _, rfl⟩
+  · simp only [h0, ↓reduceIte]
+    exact scatterLoop_terminates cfg hu (cfg.n + 1) ⟨ASt.init, fun _ => 0⟩ (scatter_init_TBase cfg)
+      (by simp [ASt.init]; omega) (fun _ _ => rfl) (by simp [ASt.init])
+
+/-- **A satisfiable balanced request is accepted.** -/
+theorem C15_balanced_accepts_satisfiable (cfg : Cfg) (hwf : WF cfg.t) (hc : CoresOK cfg)
+    (hn : cfg.n ≤ avail cfg) : ∃ aff pn, decode .balanced cfg = .ok aff pn := by
+  have hu := usable_enough cfg hwf hc hn
+  simp only [decode, decodeBalanced, tooMany_false cfg hn, Bool.false_eq_true, ↓reduceIte]
+  have hs := balPhase1_isSome cfg 0 cfg.n (effCores cfg)
+  rw [← usable_eq_balTotal] at hs
+  cases hb : balPhase1 cfg 0 cfg.n (effCores cfg) with
+  | none => rw [hb] at hs; simp [hu] at hs
+  | some b =>
+    simp only
+    have := balPhase2_noerr cfg b (effUsed cfg) (effUsed cfg) (effCores cfg) ASt.init (fun _ _ => rfl)
+    cases hr : balPhase2 cfg b (effUsed cfg) (effUsed cfg) (effCores cfg) ASt.init with
+    | run s => exact ⟨_, _, rfl⟩
+    | fin s => exact ⟨_, _, rfl⟩
+    | err => rw [hr] at this; exact this.elim
+
+/-- **With the process mask in use scatter and balanced always return** (an error for an
+    oversubscribed request, masks otherwise): the endless loops need
+    `--pika:ignore-process-mask`. -/
+theorem C15_mask_used_never_hangs (m : Mode) (hm : m = .scatter ∨ m = .balanced) (cfg : Cfg)
+    (hp : cfg.usePm = true) : isDiverge (decode m cfg) = false := by
+  have hu := usable_mask cfg hp
+  have : (!tooMany cfg && decide (usable cfg < cfg.n)) = false := by
+    rw [hu]
+    simp only [tooMany, hp, ↓reduceIte]
+    by_cases h : cfg.n > countMask cfg
+    · simp [h]
+    · have h' : ¬ countMask cfg < cfg.n := by omega
+      simp [h']
+  rcases hm with hm | hm <;> subst hm
+  · rw [C15_scatter_diverges_iff, this]
+  · rw [C15_balanced_diverges_iff, this]
+
+/-- **With the mask ignored they hang exactly when `--pika:cores` cuts the machine to fewer PUs
+    than threads**: `n ≤ #PUs` (accepted by `check_num_threads`) but the first
+    `min(max_cores, #cores)` cores hold fewer than `n` PUs. -/
+theorem C15_mask_ignored_hangs_iff (m : Mode) (hm : m = .scatter ∨ m = .balanced) (cfg : Cfg)
+    (hp : cfg.usePm = false) :
+    isDiverge (decode m cfg) =
+      (decide (cfg.n ≤ numPus cfg.t) && decide (base cfg.t (min cfg.maxCores cfg.t.nc) < cfg.n)) := by
+  have hu := usable_nomask cfg hp
+  have ht : (!tooMany cfg) = decide (cfg.n ≤ numPus cfg.t) := by
+    simp only [tooMany, hp, Bool.false_eq_true, ↓reduceIte]
+    by_cases h : cfg.n ≤ numPus cfg.t
+    · have : ¬ cfg.n > numPus cfg.t := by omega
+      simp [h, this]
+    · have : cfg.n > numPus cfg.t := by omega
+      simp [h, this]
+  rcases hm with hm | hm <;> subst hm
+  · rw [C15_scatter_diverges_iff, hu, ht]
+  · rw [C15_balanced_diverges_iff, hu, ht]
+
+/-- the fuel of the model's loops is irrelevant: a larger bound gives the same result
+    (stated for the first phase of balanced, which numa-balanced shares) -/
+theorem C15_balanced_fuel_irrelevant (cfg : Cfg) (off goal ncores f : Nat) (hg : 0 < goal)
+    (hf : goal ≤ f) :
+    (balLoop cfg off goal ncores f BSt.init).isSome = (balPhase1 cfg off goal ncores).isSome := by
+  rw [balPhase1_isSome]
+  by_cases h : goal ≤ balTotal cfg off ncores
+  · obtain ⟨b, hb, _⟩ := balLoop_terminates cfg off goal ncores h f BSt.init (init_TBase _ _ _)
+      (by simpa [BSt.init] using hg) (by simp [BSt.init]; omega)
+    simp [hb, h]
+  · rw [balLoop_diverges cfg off goal ncores (by omega) f BSt.init (init_TBase _ _ _)
+      (by simpa [BSt.init] using hg)]
+    simp [h]
+
+example : usable cfg21 = 1 ∧ avail cfg21 = 2 := by decide
+example : isDiverge (decode .scatter (cfgA 4)) = false :=
+  C15_mask_used_never_hangs _ (Or.inl rfl) _ rfl
+
+/-! ## Follow-up C15t (2): numa-balanced — where it hangs, where it is right
+
+Three defects of `decode_numabalanced_distribution` (see the witnesses above):
+(a) `get_number_of_core_pus(num_core)` lacks `core_offset`; (b) the per-socket thread counts are
+rounded independently and may not add up; (c) the reported PU number lacks `core_offset`.
+* (a) is harmless exactly on `NumaShape` machines (sockets partition the cores, the `c`-th core of
+  each socket is as large as core `c`; e.g. all cores equal) — there the decoder always returns
+  (`C15_numa_terminates_wellshaped`); in general it does not return iff `numaHangs`
+  (`C15_numa_diverges_iff`, decidable, both directions).
+* (b) on `NumaShape` machines the *binding* clauses (one PU, inside the mask, distinct) hold for
+  the first `Σ num_threads_socket` workers; they hold for all workers iff the sum is the thread
+  count (`NumaBindOk`: `C15_numa_bind_ok`, converse `C15_numa_rounding_unbound`).
+* (c) reported = bound needs every thread on socket 0: `NumaOk` (`C15_numa_ok_all_clauses`). -/
+
+/-- **decidable guard for the binding clauses of numa-balanced** -/
+def NumaBindOk (cfg : Cfg) : Prop := NumaShape cfg.t ∧ (numaSharesOf cfg).sum = cfg.n
+
+instance (cfg : Cfg) : Decidable (NumaBindOk cfg) := by unfold NumaBindOk; infer_instance
+
+/-- **decidable guard for all clauses of numa-balanced**: socket 0 exists inside the machine, holds
+    enough usable PUs, and the decoder sends every thread there (`num_threads_socket = n, 0, …, 0`):
+    machines with one socket, process masks inside socket 0, thread counts whose share of every
+    other socket rounds to 0 -/
+def NumaOk (cfg : Cfg) : Prop :=
+  socketCores cfg.t 0 ≤ cfg.t.nc ∧ cfg.n ≤ balTotal cfg 0 (socketCores cfg.t 0) ∧
+  (numaSharesOf cfg).head? = some cfg.n ∧ (numaSharesOf cfg).tail.all (fun x => x == 0) = true
+
+instance (cfg : Cfg) : Decidable (NumaOk cfg) := by unfold NumaOk; infer_instance
+
+/-- **numa-balanced does not return exactly on the inputs satisfying the decidable predicate
+    `numaHangs`** (the request passes `check_num_threads` and some socket is asked for more
+    threads than its scan — limited by the sizes of the *first* cores of the machine — can find). -/
+theorem C15_numa_diverges_iff (cfg : Cfg) :
+    isDiverge (decode .numaBalanced cfg) = numaHangs cfg := by
+  rw [← decodeNuma_diverges_iff]
+  simp only [decode]
+  cases decodeNuma cfg <;> rfl
+
+/-- **On a machine of the shape the decoder assumes numa-balanced always returns.** -/
+theorem C15_numa_terminates_wellshaped (cfg : Cfg) (h : NumaShape cfg.t) :
+    isDiverge (decode .numaBalanced cfg) = false := by
+  rw [C15_numa_diverges_iff]
+  cases ht : tooMany cfg with
+  | true => simp [numaHangs, ht]
+  | false => exact numa_shape_no_hang cfg h ht
+
+/-- **numa-balanced, binding clauses**: under `NumaBindOk` every worker is bound to exactly one
+    PU of the machine inside the effective mask and no two workers share a PU. -/
+theorem C15_numa_bind_ok (cfg : Cfg) (hu : UsedZero cfg) (hok : NumaBindOk cfg)
+    (aff : Nat → List Nat) (pn : Nat → Nat) (h : decode .numaBalanced cfg = .ok aff pn) :
+    (∀ i, i < cfg.n → ∃ q, aff i = [q] ∧ q < numPus cfg.t ∧ (cfg.usePm = true → cfg.pm q = true)) ∧
+    (∀ i j, i < cfg.n → j < cfg.n → i ≠ j → aff i ≠ aff j) := by
+  have ht : tooMany cfg = false := by
+    cases ht : tooMany cfg with
+    | false => rfl
+    | true => simp [decode, decodeNuma, ht] at h
+  obtain ⟨aff', pn', e, b1, b2, _⟩ := numa_bind_spec cfg (effUsed_zero cfg hu) hok.1 ht
+  simp only [decode] at h
+  rw [e] at h
+  simp only [Res.ok.injEq] at h
+  obtain ⟨e1, e2⟩ := h
+  subst e1; subst e2
+  rw [hok.2] at b1 b2
+  refine ⟨?_, b2⟩
+  intro i hi
+  obtain ⟨q, h1, h2, h3⟩ := b1 i hi
+  refine ⟨q, h1, h2, ?_⟩
+  intro hp
+  simpa [ind, hp] using h3
+
+/-- **… and such a request is accepted**, by the decoder and by `affinity_data::init`. -/
+theorem C15_numa_bind_accepts (cfg : Cfg) (hu : UsedZero cfg) (hok : NumaBindOk cfg)
+    (hn : cfg.n ≤ avail cfg) : ∃ aff pn, affInit (some .numaBalanced) cfg = .bound aff pn := by
+  obtain ⟨aff, pn, e, b1, _, _⟩ :=
+    numa_bind_spec cfg (effUsed_zero cfg hu) hok.1 (tooMany_false cfg hn)
+  rw [hok.2] at b1
+  have hc : countInit cfg.n aff = cfg.n := by
+    apply countInit_all
+    intro i hi
+    obtain ⟨q, h1, _⟩ := b1 i hi
+    simp [h1]
+  refine ⟨aff, pn, ?_⟩
+  simp [affInit, decode, e, hc]
+
+/-- **Converse on well-shaped machines**: if the rounded per-socket counts do not add up to the
+    thread count, worker `Σ num_threads_socket` keeps an empty mask and `affinity_data::init`
+    refuses the (satisfiable) request — `NumaBindOk` is exact there. -/
+theorem C15_numa_rounding_unbound (cfg : Cfg) (hu : UsedZero cfg) (hs : NumaShape cfg.t)
+    (hn : cfg.n ≤ avail cfg) (hlt : (numaSharesOf cfg).sum < cfg.n) :
+    affOf (decode .numaBalanced cfg) (numaSharesOf cfg).sum = [] ∧
+    affInit (some .numaBalanced) cfg = .error .notAllBound := by
+  obtain ⟨aff, pn, e, _, _, b3⟩ :=
+    numa_bind_spec cfg (effUsed_zero cfg hu) hs (tooMany_false cfg hn)
+  have h0 := b3 _ (Nat.le_refl _)
+  have hc := countInit_lt cfg.n aff _ hlt h0
+  refine ⟨by simp [decode, e, affOf, h0], ?_⟩
+  have : countInit cfg.n aff ≠ cfg.n := by omega
+  simp [affInit, decode, e, this]
+
+/-- **numa-balanced, all clauses**: under `NumaOk` the request is accepted and every worker is
+    bound to exactly one PU inside the effective mask, pairwise distinct, reported = bound. -/
+theorem C15_numa_ok_all_clauses (cfg : Cfg) (hu : UsedZero cfg) (hok : NumaOk cfg)
+    (hn : cfg.n ≤ avail cfg) :
+    ∃ aff pn, decode .numaBalanced cfg = .ok aff pn ∧
+      affInit (some .numaBalanced) cfg = .bound aff pn ∧
+      (∀ i, i < cfg.n → ∃ q, aff i = [q] ∧ pn i = q ∧ q < numPus cfg.t ∧
+        (cfg.usePm = true → cfg.pm q = true)) ∧
+      (∀ i j, i < cfg.n → j < cfg.n → i ≠ j → aff i ≠ aff j) := by
+  obtain ⟨h1, h2, h3, h4⟩ := hok
+  have hsh : ∃ rest, numaSharesOf cfg = cfg.n :: rest ∧ ∀ x, x ∈ rest → x = 0 := by
+    cases hl : numaSharesOf cfg with
+    | nil => rw [hl] at h3; simp at h3
+    | cons a rest =>
+      rw [hl] at h3 h4
+      simp only [List.head?_cons, Option.some.injEq] at h3
+      simp only [List.tail_cons, List.all_eq_true, beq_iff_eq] at h4
+      exact ⟨rest, by rw [h3], h4⟩
+  obtain ⟨rest, hs, hz⟩ := hsh
+  obtain ⟨aff, pn, e, g⟩ := numa_first_socket_spec cfg (effUsed_zero cfg hu) (tooMany_false cfg hn)
+    h1 h2 rest hs hz
+  have hc : countInit cfg.n aff = cfg.n := by
+    apply countInit_all
+    intro i hi
+    obtain ⟨q, h1, _⟩ := g.bound i hi
+    simp [h1]
+  refine ⟨aff, pn, e, by simp [affInit, decode, e, hc], ?_, g.distinct⟩
+  intro i hi
+  obtain ⟨q, a1, a2, a3, a4⟩ := g.bound i hi
+  refine ⟨q, a1, a2, a3, ?_⟩
+  intro hp
+  simpa [ind, hp] using a4
+
+/-- **Converse for the reported PU number on well-shaped machines**: as soon as a socket with a
+    positive core offset receives a thread (`num_threads_socket[j] > 0`, `j`-th socket not at core
+    0), some worker reports a PU it is not bound to — the last condition of `NumaOk` (all threads on
+    the first socket) is necessary. -/
+theorem C15_numa_reported_wrong_beyond_socket0 (cfg : Cfg) (hu : UsedZero cfg) (hwf : WF cfg.t)
+    (hs : NumaShape cfg.t) (hn : cfg.n ≤ avail cfg) (j : Nat) (hj : j < numSockets cfg.t)
+    (hpos : 0 < (numaSharesOf cfg).getD j 0) (hoff : 0 < sockOff cfg.t j) :
+    ∃ i, i < cfg.n ∧
+      affOf (decode .numaBalanced cfg) i ≠ [pnOf (decode .numaBalanced cfg) i] := by
+  obtain ⟨aff, pn, e, i, hi, hne⟩ := numa_misreport_spec cfg (effUsed_zero cfg hu) hwf hs
+    (tooMany_false cfg hn) j hj hpos hoff
+  exact ⟨i, hi, by simpa [decode, e, affOf, pnOf] using hne⟩
+
+/-! non-vacuity of the numa-balanced guards, and the known counterexamples seen through them -/
+
+/-- 6 threads on 3×2×2: two per socket — binding right on all sockets (the reported PU numbers
+    of sockets 1, 2 are still wrong: `C15_numa_reported_pu_differs` is the 4-thread case) -/
+example : NumaBindOk (cfg322 6) := by decide
+example : (List.range 6).map (affOf (decode .numaBalanced (cfg322 6))) = [[0], [2], [4], [6], [8], [10]] := by
+  decide
+example : (List.range 6).map (pnOf (decode .numaBalanced (cfg322 6))) = [0, 2, 0, 2, 0, 2] := by decide
+/-- the 4-thread witness fails the guard because of the rounding (shares 1+1+1) -/
+example : NumaShape t322 ∧ ¬ NumaBindOk (cfg322 4) ∧ numaSharesOf (cfg322 4) = [1, 1, 1] := by decide
+/-- the asymmetric machines of the hang / shared-PU witnesses fail `NumaShape` -/
+example : ¬ NumaShape tAsym1 ∧ ¬ NumaShape tAsym2 := by decide
+example : numaHangs (cfgAsym tAsym1 6) = true ∧ numaHangs (cfgAsym tAsym2 10) = false := by decide
+/-- 2×2×2 with the mask {0,1,2} inside socket 0, 3 threads: all clauses hold -/
+def cfgS0 (n : Nat) : Cfg :=
+  { t := t222, pm := fun q => q == 0 || q == 1 || q == 2, usePm := true, used := 0, maxCores := 0, n := n }
+example : NumaOk (cfgS0 3) := by decide
+example : (List.range 3).map (affOf (decode .numaBalanced (cfgS0 3))) = [[0], [1], [2]] ∧
+    (List.range 3).map (pnOf (decode .numaBalanced (cfgS0 3))) = [0, 1, 2] := by decide
+/-- one thread on the full 2×2×2 machine: the share of socket 1 is cut to 0 -/
+example : NumaOk { cfgS0 1 with pm := fun _ => true } := by decide
+/-- two threads on the full machine go to two sockets: not `NumaOk` (reported PU of worker 1 is wrong) -/
+example : ¬ NumaOk { cfgS0 2 with pm := fun _ => true } ∧
+    NumaBindOk { cfgS0 2 with pm := fun _ => true } := by decide
+
+/-! ## Follow-up C15t (3): the rejection clause through the command line
+
+`Model/AffCmd.lean`: `--pika:threads=<n|cores|all>`, `--pika:cores=<k|all>`,
+`--pika:ignore-process-mask`, `--pika:bind` → the request (`cmdCfg`) `affinity_data::init` is
+called with by `run_or_start` (`startup`).  Tied to the code by `harness/e0/affinity_cmd.cpp`
+(real `command_line_handling::call` + `affinity_data::init` under synthetic machines). -/
+
+/-- **Oversubscription is rejected at start-up, whatever the combination of `--pika:threads`,
+    `--pika:cores` and `--pika:ignore-process-mask`** (every binding mode other than `none`): more
+    threads than PUs in the process mask — or in the machine when the mask is ignored — makes
+    `affinity_data::init` throw `bad_parameter`; no masks are stored. -/
+theorem C15_start_rejects_oversubscription (cmd : Cmd) (m : Mode) (hb : cmd.bind = some m)
+    (t : Topo) (pm : Nat → Bool) (cfg : Cfg) (hc : cmdCfg cmd t pm = some cfg)
+    (h : avail cfg < cfg.n) : startup cmd t pm = .init (.error .tooMany) := by
+  simp only [startup, hc, hb, affInitMasks, affInit, C15_reject_oversubscription m cfg h]
+
+/-- **The thread-count keywords never oversubscribe**: `--pika:threads=all`, `=cores` and the
+    default ask for at most the PUs available (in the mask, or in the machine when it is
+    ignored), so they are never rejected by `check_num_threads`. -/
+theorem C15_keywords_fit (cmd : Cmd) (hk : ∀ k, cmd.threads ≠ .num k) (t : Topo) (hwf : WF t)
+    (pm : Nat → Bool) (cfg : Cfg) (hc : cmdCfg cmd t pm = some cfg) : cfg.n ≤ avail cfg := by
+  unfold cmdCfg at hc
+  simp only at hc
+  split at hc
+  · simp at hc
+  · simp only [Option.some.injEq] at hc
+    subst hc
+    have h1 := defaultCores_le
+      { t := t, pm := pm, usePm := !cmd.ignoreMask, used := 0, maxCores := 0, n := 0 } hwf
+    show cmdThreads cmd.threads _ ≤ avail
+      { t := t, pm := pm, usePm := !cmd.ignoreMask, used := 0, maxCores := 0, n := 0 }
+    cases ht : cmd.threads with
+    | num k => exact absurd ht (hk k)
+    | dflt => exact h1
+    | cores => exact h1
+    | all => exact Nat.le_refl _
+
+/-- **A satisfiable command line is accepted and bound correctly** (compact / scatter /
+    balanced): if `--pika:cores` is left at its default or the process mask is in use, every
+    request that fits starts with masks satisfying all clauses. -/
+theorem C15_start_accepts (cmd : Cmd) (m : Mode) (hm : m ≠ .numaBalanced) (hb : cmd.bind = some m)
+    (hcores : cmd.cores = .dflt ∨ cmd.ignoreMask = false) (t : Topo) (hwf : WF t)
+    (pm : Nat → Bool) (cfg : Cfg) (hc : cmdCfg cmd t pm = some cfg) (hn : cfg.n ≤ avail cfg) :
+    ∃ aff pn, startup cmd t pm = .init (.bound aff pn) ∧ Good cfg aff pn := by
+  obtain ⟨f1, _, f3, f4, _, f6⟩ := cmdCfg_fields cmd t pm cfg hc
+  have hwf' : WF cfg.t := by rw [f1]; exact hwf
+  have hu : UsedZero cfg := Or.inr f4
+  have hco : CoresOK cfg := by
+    rcases hcores with h | h
+    · exact Or.inr (by rw [f6 h]; exact Nat.le_refl _)
+    · exact Or.inl (by rw [f3, h]; rfl)
+  have hex : ∃ aff pn, decode m cfg = .ok aff pn := by
+    cases m with
+    | numaBalanced => exact absurd rfl hm
+    | compact => exact C15_compact_accepts_satisfiable cfg hwf' hu hco hn
+    | scatter => exact C15_scatter_accepts_satisfiable cfg hwf' hco hn
+    | balanced => exact C15_balanced_accepts_satisfiable cfg hwf' hco hn
+  obtain ⟨aff, pn, hd⟩ := hex
+  have hg := decode_good m hm cfg hwf' hu (fun _ => hco) aff pn hd
+  have hci : countInit cfg.n aff = cfg.n := by
+    apply countInit_all
+    intro i hi
+    obtain ⟨q, h1, _⟩ := hg.bound i hi
+    simp [h1]
+  refine ⟨aff, pn, ?_, hg⟩
+  simp [startup, hc, hb, affInitMasks, affInit, hd, hci]
+
+/-- **`--pika:bind=none` inside the machine**: with at most as many workers as PUs no worker
+    gets a mask. -/
+theorem C15_none_unbound_start (cfg : Cfg) (h : cfg.n ≤ numPus cfg.t) (i : Nat) (hi : i < cfg.n) :
+    noneMask cfg i = [] := by
+  simp [noneMask]; omega
+
+/-- FULL STATEMENT THAT FAILS: "a request for more threads than PUs is rejected / `none` leaves
+    every worker unbound" for `--pika:bind=none`.  `affinity_data::init` raises no error for
+    `--pika:bind=none` whatever the thread count (there is no `check_num_threads` on this path),
+    and `get_pu_mask` tests `no_affinity_` — filled by PU number — with the worker number: worker
+    `#PUs` (the first one beyond the machine) is **bound to PU 0**. -/
+theorem C15_none_oversubscribed_binds_partial (cmd : Cmd) (hb : cmd.bind = none) (t : Topo)
+    (pm : Nat → Bool) (cfg : Cfg) (hc : cmdCfg cmd t pm = some cfg)
+    (_h : numPus cfg.t < cfg.n) :
+    ∃ aff pn, startup cmd t pm = .init (.bound aff pn) ∧ aff (numPus cfg.t) = [0] := by
+  refine ⟨noneMask cfg, fun i => i % numPus cfg.t, by simp only [startup, hc, hb, affInitMasks], ?_⟩
+  simp [noneMask, Nat.mod_self]
+
+/-- **`--pika:cores` has no effect while the process mask is used** (all four modes): the
+    decoders overwrite `max_cores` — the `cores < threads` findings need
+    `--pika:ignore-process-mask`. -/
+theorem C15_cores_ignored_with_mask (m : Mode) (cfg : Cfg) (k : Nat) (h : cfg.usePm = true) :
+    decode m { cfg with maxCores := k } = decode m cfg := decode_withCores m cfg k h
+
+/-- compact with `--pika:cores=0 --pika:ignore-process-mask`: no core is looked at, the outer loop
+    never ends (the remaining non-terminating input of compact; with `0 < cores` it wraps around
+    and oversubscribes instead: `C15_compact_oversubscribes_maxcores`) -/
+example : isDiverge (decode .compact { cfg21 with maxCores := 0 }) = true := by decide
+
+/-- the command lines of the E0 smoke test: 2×2×2, mask {1,2,3,6} -/
+def pmA : Nat → Bool := fun q => q == 1 || q == 2 || q == 3 || q == 6
+example : (cmdCfg ⟨.cores, .dflt, false, some .scatter⟩ t222 pmA).map (fun c => (c.n, c.maxCores)) =
+    some (3, 3) := by decide
+example : (cmdCfg ⟨.all, .dflt, false, some .scatter⟩ t222 pmA).map (fun c => (c.n, c.maxCores)) =
+    some (4, 4) := by decide
+example : (cmdCfg ⟨.all, .num 2, true, some .scatter⟩ t222 pmA).map (fun c => (c.n, c.maxCores)) =
+    some (8, 2) := by decide
+example : (match startup ⟨.num 5, .dflt, false, some .scatter⟩ t222 pmA with
+    | .init (.error .tooMany) => true | _ => false) = true := by decide
+
+/-- a machine for which hwloc reports no core objects (3 PUs directly below the package) -/
+def tNoCore : Topo := { nc := 3, pus := fun _ => 1, socks := [3], noCoreObjs := true }
+
+/-- FULL STATEMENT THAT FAILS: "a satisfiable request is accepted" for the default thread count
+    and for `--pika:threads=cores` on a machine without core objects while the process mask is
+    used: `get_number_of_default_cores` counts 0 cores (`init_core_affinity_mask_from_core` finds
+    no object), the thread count becomes 0 and the start-up fails although 3 PUs are available. -/
+theorem C15_no_core_objects_zero_threads_partial :
+    (match startup ⟨.dflt, .dflt, false, some .balanced⟩ tNoCore (fun _ => true) with
+     | .cmdlineError => true | _ => false) = true ∧
+    (match startup ⟨.cores, .dflt, false, some .balanced⟩ tNoCore (fun _ => true) with
+     | .cmdlineError => true | _ => false) = true ∧
+    (match startup ⟨.all, .dflt, false, some .balanced⟩ tNoCore (fun _ => true) with
+     | .init (.bound _ _) => true | _ => false) = true := by decide
 
 end PikaVerif.C15
